@@ -252,7 +252,7 @@ func parseReplies(b []byte, sentAuth bool) (method int, authStatus int, rep int)
 	return
 }
 
-func runSession(t hx.TB, ln net.Listener, tg *target, c cfg, s session, class string) {
+func handlerJSON(c cfg) map[string]any {
 	hm := rx.H("socks5")
 	if c.Commands != nil {
 		hm["commands"] = c.Commands
@@ -260,7 +260,25 @@ func runSession(t hx.TB, ln net.Listener, tg *target, c cfg, s session, class st
 	if c.Creds != nil {
 		hm["credentials"] = c.Creds
 	}
-	rl, err := rx.Routes(rx.BareCtx(), []rx.R{{Handle: []map[string]any{hm}}})
+	return hm
+}
+
+// runSession serves one client session with a handler configured as c. The
+// process may hold other socks5 handlers (other routes, other servers, an
+// earlier or later configuration): before lists those provisioned before the
+// handler under test and after those provisioned after it. What they enable
+// is their business; the handler under test answers for c alone.
+func runSession(t hx.TB, ln net.Listener, tg *target, c cfg, before2, after2 []cfg, s session, class string) {
+	for _, o := range before2 {
+		_, _ = rx.Routes(rx.BareCtx(), []rx.R{{Handle: []map[string]any{handlerJSON(o)}}})
+	}
+	rl, err := rx.Routes(rx.BareCtx(), []rx.R{{Handle: []map[string]any{handlerJSON(c)}}})
+	for _, o := range after2 {
+		_, _ = rx.Routes(rx.BareCtx(), []rx.R{{Handle: []map[string]any{handlerJSON(o)}}})
+	}
+	if len(before2)+len(after2) > 0 {
+		class += "+siblings"
+	}
 	if err != nil {
 		// a configuration the handler refuses to load serves nobody: fine
 		hx.Case(hx.Hash("cfg-rejected", fmt.Sprint(c)), false, "C16/config-rejected")
@@ -335,8 +353,8 @@ func runSession(t hx.TB, ln net.Listener, tg *target, c cfg, s session, class st
 		authOK = true
 	}
 	permitted := authOK && c.enabled()[s.Cmd]
-	desc := fmt.Sprintf("config commands=%q credentials=%q; client sent %s (ver=%d methods=%v auth=%v user=%q pass=%q cmd=%d atyp=%d); server replied %s (method=%d auth-status=%d rep=%d); target accepted %d connection(s)",
-		c.Commands, c.Creds, hex.EncodeToString(script), s.Ver, s.Methods, s.Auth, s.User, s.Pass, s.Cmd, s.Atyp, hex.EncodeToString(reply[:min(len(reply), 40)]), method, authStatus, rep, accepted)
+	desc := fmt.Sprintf("config commands=%q credentials=%q (other socks5 handlers in the process: before=%+v after=%+v); client sent %s (ver=%d methods=%v auth=%v user=%q pass=%q cmd=%d atyp=%d); server replied %s (method=%d auth-status=%d rep=%d); target accepted %d connection(s)",
+		c.Commands, c.Creds, before2, after2, hex.EncodeToString(script), s.Ver, s.Methods, s.Auth, s.User, s.Pass, s.Cmd, s.Atyp, hex.EncodeToString(reply[:min(len(reply), 40)]), method, authStatus, rep, accepted)
 	if !permitted {
 		if accepted > 0 {
 			hx.Fail(t, "C16", "outbound-connection", "an outbound connection was made for a request that must be refused\n  %s", desc)
@@ -381,6 +399,11 @@ func TestSessions(t *testing.T) {
 	defer tg.ln.Close()
 	rapid.Check(t, func(rt *rapid.T) {
 		c := genCfg(rt)
-		runSession(rt, ln, tg, c, genSession(rt, c), "generated")
+		var before, after []cfg
+		if rapid.IntRange(0, 2).Draw(rt, "siblings") == 0 {
+			before = rapid.SliceOfN(rapid.Custom(genCfg), 0, 2).Draw(rt, "before")
+			after = rapid.SliceOfN(rapid.Custom(genCfg), 0, 2).Draw(rt, "after")
+		}
+		runSession(rt, ln, tg, c, before, after, genSession(rt, c), "generated")
 	})
 }
